@@ -57,6 +57,10 @@ def main():
     except Infra as e:
         say("INFRA: %s" % e)
         sys.exit(2)
+    except Exception:
+        say("INFRA: the harness raised an unexpected exception (no verdict):")
+        say(traceback.format_exc())
+        sys.exit(2)
 
     # ---- step 3/4: verdict
     known = common.load_known()
